@@ -2,6 +2,8 @@ package verifh
 
 import (
 	"fmt"
+
+	"github.com/creachadair/jrpc2"
 )
 
 func init() {
@@ -139,8 +141,8 @@ func scenarioC06(r *Run) {
 			continue
 		}
 		ref, ok := replies[m]
-		if !ok || !ref.obj.HasErr || ref.obj.Code != -32097 {
-			r.Fail("cancelled-waiter-wrong-reply", "call %s (id %s) was cancelled while waiting for a slot; want a -32097 reply, got %+v (found=%v)", m.Tag, m.ID, ref.obj, ok)
+		if !ok || !ref.obj.HasErr || ref.obj.Code != int(jrpc2.Cancelled) {
+			r.Fail("cancelled-waiter-wrong-reply", "call %s (id %s) was cancelled while waiting for a slot; want a request-cancelled (-32097) reply, got %+v (found=%v)", m.Tag, m.ID, ref.obj, ok)
 			return
 		}
 	}
